@@ -246,6 +246,29 @@ def run(ctx):
                 if any(hist[i + 1] > hist[i] * (1 + 1e-8) + 1e-14 for i in range(len(hist) - 1)): viol('C04:history:monotone:breakdown-inside-cycle', 'residual history increases', inp, hist)
                 if abs(info['residual'] - tr) > 1e-9 * max(1.0, tr) + 1e-13: viol('C04:info:residual', 'info.residual is not ||Ax-b||/||b|| of the returned x', inp, info['residual'], tr)
                 ctx.count(('breakdown-inside', n, fam, storage), True)
+    # Arnoldi remainders that are EXACTLY zero next to a non-real pivot (the Hessenberg QR then only has a phase to remove): diagonal systems with
+    # quaternion entries and unit-vector right-hand sides, q I with non-real q, upper triangular with b = e_1, a weighted cyclic shift closed by a
+    # non-real unit weight
+    for n in (3, 5) if ctx.quick() else (3, 4, 5, 6):
+        units = [Q(0, 1, 0, 0), Q(0, 0, 1, 0), Q(0, 0, 0, 1), Q(Fraction(3, 5), Fraction(4, 5), 0, 0), Q(Fraction(1, 2), Fraction(1, 2), Fraction(1, 2), Fraction(-1, 2)), Q(0, Fraction(3, 5), 0, Fraction(4, 5))]
+        fams = [('quaternion-diagonal', [[(units[i % len(units)] * Q(i + 2) if i == j else Q()) for j in range(n)] for i in range(n)]),
+                ('non-real-scalar-matrix', [[(Q(1, 2, -1, 1) if i == j else Q()) for j in range(n)] for i in range(n)]),
+                ('quaternion-upper-triangular', [[(units[(i + j) % len(units)] * Q(1 + (i == j) * (i + 2)) if j >= i else Q()) for j in range(n)] for i in range(n)]),
+                ('weighted-cyclic-shift', [[(units[i % len(units)] if (i - j) % n == 1 else Q()) for j in range(n)] for i in range(n)])]
+        for fam, A in fams:
+            An = qx.to_np(A)
+            for kpos in sorted({0, n - 2, n - 1}):
+                b = qx.zeros(n, 1); b[kpos][0] = Q(2); bn = qx.to_np(b)          # a real power of two: the normalised start vector is exactly e_k
+                for storage in ('dense', 'sparse'):
+                    inp = {'class': fam + ' with b = c e_k', 'n': n, 'k': kpos, 'storage': storage, 'A': [[[str(c) for c in a.t()] for a in r] for r in A]}
+                    try: x, info = solve(An if storage == 'dense' else mk_sparse(utils, A), bn, tol=1e-10)
+                    except Exception as e: viol('C04:raises:zero-remainder', f'Q-GMRES raised {e!r}', inp); continue
+                    if not cm.all_finite(x): viol('C04:nonfinite:zero-remainder', 'Q-GMRES returned NaN/inf', inp); continue
+                    tr = relres(An, x, bn); hist = [h[2] for h in info['residual_history']]
+                    if tr > 1e-8: viol('C04:solve:zero-remainder', f'system not solved after at most n cycles (true residual {tr:.2e}, history {[float("%.3g" % h) for h in hist]})', inp, tr)
+                    if any(hist[i + 1] > hist[i] * (1 + 1e-8) + 1e-14 for i in range(len(hist) - 1)): viol('C04:history:monotone:zero-remainder', 'residual history increases', inp, hist)
+                    if abs(info['residual'] - tr) > 1e-9 * max(1.0, tr) + 1e-13: viol('C04:info:residual', 'info.residual is not ||Ax-b||/||b|| of the returned x', inp, info['residual'], tr)
+                    ctx.count(('zero-remainder', n, fam, kpos, storage), True)
     # LU preconditioner under every pivot order: systems A = P^T L U (dyadic, |multipliers| <= 3/4) force each of the n! interchange
     # sequences, the non-involutive ones (3-cycles, 4-cycles) included; the preconditioned run must solve the ORIGINAL system and agree
     # with the unpreconditioned solution
